@@ -138,10 +138,11 @@ def run(ctx):
                                      "dict_zip/reference_encoding.rs (encoders only)"]
     cov["rule"] = ("one case = (parser, expected-length variant, valid encoding E, descriptor d) with the parser called on Apply(E, d) in a "
                    "child process; descriptors enumerated by TLC from Parser.tla for the length class |E|: every truncation n < |E|, every "
-                   "position x 7 substitution values, every 4/8-byte window (aligned and unaligned) in the first 64 bytes x 6 length "
+                   "position x 7 substitution values, every 4/8-byte window (aligned and unaligned) in the first 96 bytes x 6 length "
                    "patterns, 6 kinds of appended garbage, window x truncation combinations (%s), plus every byte string up to length %d "
-                   "fed raw (length 3: the parsers without an expected-length argument whose call costs microseconds; the 50 ms-per-call "
-                   "and file-backed parsers: up to length 1); parsers with an expected-length argument run every class under 5 values (exact, 0, +1, 2^31, usize::MAX). "
+                   "fed raw (length 3: the parsers without an expected-length argument whose call costs microseconds; the 20-50 ms-per-call "
+                   "and file-backed parsers: up to length 1, in the quick tier length 0 and no combinations for them); parsers with an "
+                   "expected-length argument run every class under 7 values (exact, 0, 1, -1, +1, 2^31, usize::MAX). "
                    "distinct_nontrivial = cases executed whose input is mutated or raw (kind != base case, not skipped); exhaustive refers "
                    "to the descriptor classes of each encoding." % ("all truncation points for |E| <= 320, else 4 classes" if ctx.thorough else "4 truncation classes per window", 3 if ctx.thorough else 2))
     for ev in s.get("samples", [])[:4]:
@@ -153,7 +154,9 @@ def run(ctx):
         "timeout = 10 s of process CPU time inside one call (or 120 s blocked); wall time is not used because the sandbox stalls for seconds under load",
         "after 3 process-killing cases (2 timeouts) in one batch the rest of that batch is skipped and reported as skipped, never as passed",
         "valid encodings come from the real encoders on 2 (quick) / 4 (thorough) payloads; string inputs (hex, base64) are passed through from_utf8_lossy",
-        "parsers that rebuild a 257x4096 decode table per call (huff.ctx.decode_xN) get raw strings up to length 1 only",
+        "parsers that rebuild a 257x4096 decode table per call (huff.ctx.decode_xN / decode_with_interleaving) and the file-backed loaders (MmapVec, ZReorderMap, load_from_file, from_file) get raw strings up to length 1 only and, in the quick tier, no window x truncation combinations",
+        "a loaded object must be usable: after a successful open / load the harness reads over the reported length, and for MmapVec also pops, pushes, resizes, shrinks, clears and syncs (mode open_mutate)",
+        "low-level decoder steps that take a numeric state (FseTable::decode_symbol / renormalize_decode, Rans64Decoder::decode_symbol, BitReader::read_bits(width)) are driven with the state / width taken from the mutated bytes",
     ]
 
 
